@@ -547,6 +547,10 @@ func runC16(c *run.Ctx) {
 		if i%5 == 0 && len(ms.Dirs) > 0 {
 			// a type and a directive sharing a name
 			ms.Types = append(ms.Types, &model.TypeDef{Kind: model.Object, Name: ms.Dirs[0].Name, Fields: []*model.FieldDef{{Name: "a", Type: model.Named("Int")}}})
+			// ... and the type is USED as a type (the reference may be read while only the directive of that name is known)
+			if qt := ms.Type(ms.Query); qt != nil {
+				qt.Fields = append(qt.Fields, &model.FieldDef{Name: "zzSameName", Type: model.ListOf(model.Named(ms.Dirs[0].Name))})
+			}
 			ms.Reindex()
 			sameName = true
 		}
